@@ -14,6 +14,7 @@
 package main
 
 import (
+	"encoding/json"
 	"fmt"
 	"os"
 	"sort"
@@ -75,6 +76,11 @@ func main() {
 	checkRanges(sp.schema)
 	fmt.Fprintf(os.Stderr, "c02: TLC %s: %d cases, %d grid cells, %d states (%.1fs)\n", cfg, len(sp.cases), len(sp.grid), sp.res.Distinct, time.Since(t0).Seconds())
 
+	if rp := os.Getenv("VERIF_REPLAY"); rp != "" {
+		replayOne(c, rp, sp, thorough)
+		return
+	}
+
 	// the scalar unmarshalers, in process
 	runGrid(c, sp.grid)
 
@@ -86,10 +92,8 @@ func main() {
 		vs = append(vs, v.v)
 	}
 	t1 := time.Now()
-	// the combination the probe cannot be built in (observed, then avoided): map-backed input + return_pointers_in_unmarshalinput
-	combo := vlib.Variant{Name: "vx", Opts: map[string]bool{"return_pointers_in_unmarshalinput": true}, Extra: modelsYAML(sp.schema, true)}
-	comboCh := make(chan error, 1)
-	go func() { _, err := vlib.BuildProbe("args", combo); comboCh <- err }()
+	comboDone := make(chan struct{})
+	go func() { buildCombo(c, sp.schema); close(comboDone) }()
 	bins, err := vlib.BuildProbes("args", vs)
 	if err != nil {
 		vlib.Infra("build probes: %v", err)
@@ -97,17 +101,7 @@ func main() {
 	for _, v := range vars {
 		v.bin = bins[v.v.ID()]
 	}
-	if err := <-comboCh; err != nil {
-		msg := err.Error()
-		if strings.Contains(msg, "compile") && strings.Contains(msg, "*map[string]interface{}") {
-			c.Violate("build:map-backed-input+return_pointers_in_unmarshalinput:does-not-compile",
-				"a map-backed input type (models: InM: {model: \"map[string]interface{}\"}) with return_pointers_in_unmarshalinput: true generates code that does not compile, so no resolver can receive such an argument:\n"+tail(msg, 600),
-				map[string]any{"kind": "build", "options": combo.Opts, "models": "InM: map[string]interface{}"})
-		} else {
-			vlib.Infra("build of the map + return_pointers_in_unmarshalinput configuration failed for an unexpected reason: %v", err)
-		}
-	}
-	c.AddEvals(1)
+	<-comboDone
 	fmt.Fprintf(os.Stderr, "c02: %d configurations generated and compiled (%.1fs)\n", len(vars), time.Since(t1).Seconds())
 
 	t2 := time.Now()
@@ -139,10 +133,7 @@ func main() {
 		if r.ver != nil {
 			perKey[r.ver.key]++
 			if perKey[r.ver.key] == 1 {
-				c.Violate(r.ver.key, r.ver.detail, map[string]any{"kind": "case", "config": r.vr.v.Name, "options": r.vr.v.Opts,
-					"query": r.cmd.Query, "variables": r.cmd.Vars, "carrier": r.cmd.Carrier, "shape": r.cs.Shape, "source": r.cs.Src.String(), "value": r.cs.Val.String(),
-					"specification": map[string]any{"ok": r.cs.Out.OK, "v": r.cs.Out.V.String(), "faults": r.cs.Out.Faults, "soft": r.cs.Out.Soft},
-					"observed": r.obs})
+				c.Violate(r.ver.key, r.ver.detail, scenarioOf(&r))
 			}
 		}
 	}
@@ -190,4 +181,107 @@ func defKind(sh *Shape) string {
 		s += "+dir"
 	}
 	return s
+}
+
+func scenarioOf(r *result) map[string]any {
+	return map[string]any{"kind": "case", "config": r.vr.v.Name, "options": r.vr.v.Opts, "seed": vlib.Seed(), "tier": vlib.Tier(),
+		"query": r.cmd.Query, "variables": r.cmd.Vars, "carrier": r.cmd.Carrier, "shape": r.cs.Shape, "source": r.cs.Src.String(), "value": r.cs.Val.String(),
+		"specification": map[string]any{"ok": r.cs.Out.OK, "v": r.cs.Out.V.String(), "faults": r.cs.Out.Faults, "soft": r.cs.Out.Soft},
+		"observed":      r.obs}
+}
+
+// replayOne re-runs exactly one recorded scenario (./check C02 --replay file).
+func replayOne(c *vlib.Check, path string, sp *specOut, thorough bool) {
+	b, err := os.ReadFile(path)
+	if err != nil {
+		vlib.Infra("replay file: %v", err)
+	}
+	var rf struct {
+		Scenario struct {
+			Kind   string `json:"kind"`
+			Config string `json:"config"`
+			Seed   int64  `json:"seed"`
+			Shape  string `json:"shape"`
+			Source string `json:"source"`
+			Value  string `json:"value"`
+		} `json:"scenario"`
+	}
+	if err := json.Unmarshal(b, &rf); err != nil {
+		vlib.Infra("replay file: %v", err)
+	}
+	sc := rf.Scenario
+	switch sc.Kind {
+	case "grid":
+		runGrid(c, sp.grid)
+	case "build":
+		buildCombo(c, sp.schema)
+	case "case":
+		var cs *Case
+		find := func(s *specOut) {
+			for _, x := range s.cases {
+				if x.Shape == sc.Shape && x.Src.String() == sc.Source && x.Val.String() == sc.Value {
+					cs = x
+				}
+			}
+		}
+		find(sp)
+		if cs == nil && !thorough {
+			sp = runSpec("MC_Coerce_thorough.cfg", 20*time.Minute)
+			find(sp)
+		}
+		if cs == nil {
+			vlib.Infra("the recorded case (%s, %s, %s) is not in the specification's universe any more", sc.Shape, sc.Source, sc.Value)
+		}
+		installSDL(renderSDL(sp.schema))
+		var vr *variant
+		for _, v := range variants(sp.schema) {
+			if v.v.Name == sc.Config {
+				vr = v
+			}
+		}
+		if vr == nil {
+			vlib.Infra("unknown configuration %q", sc.Config)
+		}
+		bin, err := vlib.BuildProbe("args", vr.v)
+		if err != nil {
+			vlib.Infra("build probe: %v", err)
+		}
+		vr.bin = bin
+		seed := sc.Seed
+		if seed == 0 {
+			seed = vlib.Seed()
+		}
+		for _, r := range replayAll(sp.schema, []*Case{cs}, []*variant{vr}, seed) {
+			c.AddEvals(1)
+			c.Class("replay")
+			c.Class("replay/" + caseKey(r.cs))
+			c.Sample(scenarioOf(&r))
+			fmt.Printf("replay: %s  variables %s -> called=%d args=%s gate=%v errs=%v\n", r.cmd.Query, r.cmd.Vars, r.obs.Called, r.obs.Args, r.obs.Gate, r.obs.Errs)
+			if r.ver != nil {
+				c.Violate(r.ver.key, r.ver.detail, scenarioOf(&r))
+			}
+		}
+	default:
+		vlib.Infra("replay file of unknown kind %q", sc.Kind)
+	}
+	c.Set("rule", "replay of one recorded scenario")
+	c.Finish()
+}
+
+// buildCombo: the combination the probe cannot be built in (observed, then avoided).
+func buildCombo(c *vlib.Check, s *Schema) {
+	combo := vlib.Variant{Name: "vx", Opts: map[string]bool{"return_pointers_in_unmarshalinput": true}, Extra: modelsYAML(s, true)}
+	_, err := vlib.BuildProbe("args", combo)
+	c.AddEvals(1)
+	if err == nil {
+		return
+	}
+	msg := err.Error()
+	if strings.Contains(msg, "compile") && strings.Contains(msg, "*map[string]interface{}") {
+		c.Violate("build:map-backed-input+return_pointers_in_unmarshalinput:does-not-compile",
+			"a map-backed input type (models: InM: {model: \"map[string]interface{}\"}) with return_pointers_in_unmarshalinput: true generates code that does not compile, so no resolver can receive such an argument:\n"+tail(msg, 600),
+			map[string]any{"kind": "build", "options": combo.Opts, "models": "InM: map[string]interface{}"})
+		return
+	}
+	vlib.Infra("build of the map + return_pointers_in_unmarshalinput configuration failed for an unexpected reason: %v", err)
 }
